@@ -104,6 +104,8 @@ def evaluate(cfg):
         shells = [shells[i] for i in cfg["perm"]]
     g = [gshell(s) for s in shells]
     observe(o, g, shells)
+    if cfg["kind"] == "pair" and cfg.get("alias"):
+        observe(o, [g[0], g[1], g[0]], [shells[0], shells[1], shells[0]], tag=" [a, b, a] with a the same object")
     if cfg["kind"] == "pair":
         rev = [shells[1], shells[0]]
         observe(o, [g[1], g[0]], rev, tag=" reversed order")
